@@ -343,10 +343,58 @@ def execute(case, scratch):
                 count['discarded.model_unavailable'] = count.get('discarded.model_unavailable', 0) + 1
                 continue
             vector(f['kind'], model)
-            fmt = 'json' if util.digest(f)[0] in '01234567' else 'html'
+            fmt = 'json' if util.digest(f)[0] in '01234567' and f['kind'] != 'bad-utf8' else 'html'
             r = run_up(fmt, reads, cwd)
             text = r.out + '\n' + r.err
             log.append(['fault', f, fmt, cwd, r.exit, util.sha(util.norm_text(text, root))])
+            if f['kind'] == 'bad-utf8' and f['source'] != '*' and r.exit == 0 and not all(
+                    any(nm in ln and NOTICE.search(ln) for ln in text.split('\n')) for nm in failing):
+                # the command did not give the source up: it read the file under some other decoding.  Then it is not an unreadable
+                # source, and what must hold is what holds for any source: every row once.  Which characters the three stray bytes
+                # became is the decoder's business, so the record they sit in is not judged; every other row of every source is.
+                data = None
+                if os.path.exists(html_path):
+                    with open(html_path, 'r', encoding='utf-8') as fh:
+                        data = rp.extract_spending_data(fh.read())
+                if data is None:
+                    add('ISO', 'no-report', f['kind'], 'source %s has stray bytes, is not reported as failing, and no HTML report was written' % failing, f)
+                    continue
+                raw = lsnap[f['file']]
+                cut = int(len(raw) * f['at'])
+                lo = raw.rfind(b'\n', 0, max(0, raw.rfind(b'\n', 0, max(0, raw.rfind(b'\n', 0, cut)))))
+                hi = cut
+                for _ in range(3):
+                    nx = raw.find(b'\n', hi + 1)
+                    hi = nx if nx >= 0 else len(raw)
+                near = {int(x) for x in re.findall(rb' r(\d+)', raw[max(0, lo):hi])}
+                # rows that carry other non-ASCII characters (a currency sign, an accented name) read differently under another
+                # decoding, legitimately: only the plain-ASCII records of the file are judged
+                plines = raw.split(b'\n')
+                for j_, ln_ in enumerate(plines):
+                    if any(any(b_ >= 0x80 for b_ in x_) for x_ in plines[max(0, j_ - 1):j_ + 2]):
+                        near.update(int(x) for x in re.findall(rb' r(\d+)', ln_))
+                try:
+                    full = model_report(case, (), root, ctlp)
+                except ModelUnavailable:
+                    continue
+                want = sorted((t['source'], t['id'], t['month'], round(t['amount'], 2)) for m in full['merchants'].values() for t in m['txns']
+                              if not (t['source'] in failing and t['id'] in near))
+                got = []
+                for cat, cd in (data.get('categoryView') or {}).items():
+                    for sub, sd in cd['subcategories'].items():
+                        for mid, m in sd['merchants'].items():
+                            for t in m['transactions']:
+                                if not (t['source'] in failing and rid(t['description']) in near):
+                                    got.append((t['source'], rid(t['description']) or -1, t['month'], round(t['amount'], 2)))
+                got.sort()
+                if got != want:
+                    extra = [x for x in got if x not in want][:3]
+                    missing = [x for x in want if x not in got][:3]
+                    add('ISO', 'rows-after-decoding-fallback', f['kind'],
+                        'source %s has stray non-UTF-8 bytes and was read anyway: apart from the record holding them, the report has %d rows, the '
+                        'files %d; not written: %s; written but not reported: %s' % (failing, len(got), len(want), extra, missing), f)
+                count['decoded_anyway'] = count.get('decoded_anyway', 0) + 1
+                continue
             if f['kind'] == 'EIO-once':
                 if not any(e.get('k') == 'readfault' for e in r.events):
                     count['not_fired.EIO-once'] = count.get('not_fired.EIO-once', 0) + 1
